@@ -116,3 +116,22 @@ package keeper
 //@ modifies Store_oracle
 //@ ensures  Store_oracle[types.PendingResolveListStoreKey] == old(Store_oracle)[types.PendingResolveListStoreKey]
 //@ ensures  forall id Int :: old(has(Store_oracle, types.ResultStoreKey(id))) ==> Store_oracle[types.ResultStoreKey(id)] == old(Store_oracle)[types.ResultStoreKey(id)]
+
+// assumption (economic bound): a validator's bonded tokens fit in a uint64 (total supply < 2^64)
+//@ axiom tokensFit: forall v stakingtypes.ValidatorI :: 0 <= ext("ValidatorI.GetTokens", v) && ext("ValidatorI.GetTokens", v) <= MaxUint64
+
+// ---- C09: validators chosen for a request ----------------------------------------------------------------
+// The callback run for every bonded validator keeps the two parallel slices aligned and collects only
+// oracle-active validators.
+//@ func (k Keeper) GetRandomValidators$lit0
+//@ maintains len(valOperators) == len(valPowers)
+//@ maintains forall j :: 0 <= j && j < len(valOperators) ==> vstatus(Store_oracle, valOperators[j]).IsActive
+
+// Exactly `size` validators, every one of them oracle-active at that moment, or an error when fewer than
+// `size` are eligible.
+//@ func (k Keeper) GetRandomValidators
+//@ requires size >= 0 && 1 <= oracleParams(Store_oracle).SamplingTryCount && oracleParams(Store_oracle).SamplingTryCount <= MaxInt64
+//@ ensures err == nil ==> len(result) == size
+//@ ensures err == nil ==> (forall i :: 0 <= i && i < len(result) ==> vstatus(Store_oracle, result[i]).IsActive)
+//@ loop 0: invariant forall j :: 0 <= j && j < #i ==> vstatus(Store_oracle, validators[j]).IsActive
+//@ loop 0: invariant len(validators) == size
